@@ -24,6 +24,9 @@ Step(e) ==
                                               [r |-> e.r, h |-> e.h, fields |-> DiffFields(ref[e.h], e.d),
                                                taint |-> IF e.r \in taint THEN "restartBeforeBlock2" ELSE "none"]>>}
                             ELSE viol
+       [] e.ev = "ReplicaDiverged" ->
+            /\ UNCHANGED <<ref, taint>>
+            /\ viol' = viol \cup {<<nm, l + 1, "C01_Agreement", [r |-> e.r, h |-> e.h, fields |-> {"setup"}, taint |-> "none", msg |-> e.msg]>>}
        [] OTHER -> UNCHANGED <<ref, taint, viol>>
 Next == /\ l < Len(Tr) /\ l' = l + 1 /\ Step(Tr[l + 1])
         /\ TLCSet(1, l + 1) /\ TLCSet(2, viol') /\ TLCSet(3, drift')
